@@ -522,3 +522,87 @@ def gen_gfa2(rng, canonical=True, nseg=None, nedges=None, ngaps=None, nfrags=Non
 def gen_doc(rng, version=None, **kw):
     version = version or rng.choice(["gfa1", "gfa2"])
     return gen_gfa1(rng, **kw) if version == "gfa1" else gen_gfa2(rng, **kw)
+
+
+def consistent_cigar(rng, rl, ql, ops="MIDP"):
+    """CIGAR with exactly the given reference and query lengths."""
+    out = []
+    r, q = rl, ql
+    last = None
+    guard = 0
+    while (r > 0 or q > 0) and guard < 50:
+        guard += 1
+        choices = []
+        if r > 0 and q > 0:
+            choices += ["M", "M"]
+        if r > 0:
+            choices.append("D")
+        if q > 0:
+            choices.append("I")
+        if "P" in ops and rng.random() < 0.15:
+            choices.append("P")
+        c = rng.choice([x for x in choices if x != last] or choices)
+        if c == "M":
+            n = rng.randint(1, min(r, q))
+            r -= n
+            q -= n
+        elif c == "D":
+            n = rng.randint(1, r)
+            r -= n
+        elif c == "I":
+            n = rng.randint(1, q)
+            q -= n
+        else:
+            n = rng.randint(1, 3)
+        out.append("%d%s" % (n, c))
+        last = c
+    if not out:
+        return "*"
+    return "".join(out)
+
+
+def gen_gfa2_semantic(rng, nseg=None):
+    """GFA2 document whose E lines are dovetails / containments (both sid orders, all orientation
+    pairs) with CIGARs consistent with the intervals and rich in I/D; plus a few groups over them."""
+    d = Gfa2Doc()
+    n = nseg or rng.randint(2, 5)
+    names = rng.sample(["a", "b", "c", "d", "e1", "s9"], n)
+    for s in names:
+        L = rng.randint(8, 18)
+        d.segments.append({"sid": s, "slen": L, "seq": rseq(rng, L) if rng.random() < 0.5 else "*", "tags": []})
+    k = 0
+    for _ in range(rng.randint(2, 2 * n + 1)):
+        a, b = rng.choice(names), rng.choice(names)
+        la, lb = d.slen(a), d.slen(b)
+        oa, ob = rng.choice("+-"), rng.choice("+-")
+        kind = rng.choice(["dov", "dov", "cont1", "cont2"])
+        if kind == "dov":
+            ra, rb = rng.randint(1, la - 1), rng.randint(1, lb - 1)
+            # sfx-role of the first, pfx-role of the second (or the other way round)
+            if rng.random() < 0.5:
+                i1 = (la - ra, la) if oa == "+" else (0, ra)
+                i2 = (0, rb) if ob == "+" else (lb - rb, lb)
+            else:
+                i1 = (0, ra) if oa == "+" else (la - ra, la)
+                i2 = (lb - rb, lb) if ob == "+" else (0, rb)
+        elif kind == "cont1":
+            if a == b:
+                continue
+            rb = rng.randint(1, lb - 1)
+            st = rng.randint(0, lb - rb)
+            i1, i2 = (0, la), (st, st + rb)
+        else:
+            if a == b:
+                continue
+            ra = rng.randint(1, la - 1)
+            st = rng.randint(0, la - ra)
+            i1, i2 = (st, st + ra), (0, lb)
+        k += 1
+        d.edges.append({"eid": rng.choice(["*", "e%d" % k, "e%d" % k]), "s1": a, "o1": oa, "s2": b, "o2": ob,
+                        "b1": pos2(i1[0], la), "e1": pos2(i1[1], la), "b2": pos2(i2[0], lb), "e2": pos2(i2[1], lb),
+                        "aln": "*" if rng.random() < 0.15 else consistent_cigar(rng, i1[1] - i1[0], i2[1] - i2[0]),
+                        "tags": []})
+    named = [e["eid"] for e in d.edges if e["eid"] != "*"]
+    if named and rng.random() < 0.5:
+        d.ugroups.append({"uid": "u1", "items": [rng.choice(names + named) for _ in range(rng.randint(1, 3))], "tags": []})
+    return d
